@@ -424,6 +424,16 @@ class C09:
                     o2 = C09._check(ctx, case, w2, exc2, "solve() with the action %s at evaluation %d of %d" % (
                         "raising" if kind == "raise" else "returning 'failed'", k, N), (kind, k))
                     count("faulted_" + o2)
+            # runs of consecutive failing evaluations (an action that keeps failing for a while): from the first evaluation on,
+            # and from two other positions
+            for k in sorted(set([0] + ks[1:len(ks):max(1, len(ks) // 2)][:2])):
+                for ln in (2, 3):
+                    w4, exc4, n4 = C09._one(ctx, case, fails=list(range(k, k + ln)))
+                    nf += 1
+                    count("events", n4)
+                    if w4.fired:
+                        count("fault:action_returns_failed_%d_times_in_a_row" % ln)
+                    C09._check(ctx, case, w4, exc4, "solve() with the action returning 'failed' at evaluations %d..%d of %d" % (k, k + ln - 1, N), None)
             for rs, fs in case["multi"]:
                 w3, exc3, n3 = C09._one(ctx, case, raises=rs, fails=fs)
                 nf += 1
